@@ -124,9 +124,41 @@ def process_failures(pid, tier, seed, spaces, aggs):
     return violations, known_hits
 
 
+def run_custom(pid, mod, tier, seed):
+    t0 = time.time()
+    res = mod.custom_check(tier, seed)
+    known = findings.load(pid)
+    violations, known_hits = {}, {}
+    for f in res['failures']:
+        sig = sig_of('custom', f['labels'], f['path'])
+        kf = findings.match(known, 'custom', f['labels'], f['path'])
+        d = os.path.join(os.environ.get('VERIF_REPLAY_DIR') or os.path.join(ROOT, 'replays'), pid)
+        os.makedirs(d, exist_ok=True)
+        rp = os.path.join(d, sig + '.json')
+        with open(rp, 'w') as fh:
+            json.dump({'property': pid, 'tier': tier, 'seed': seed, 'kind': 'custom', 'labels': f['labels'], 'first_failing_observable': f['path'],
+                       'expected': f['expected'], 'observed': f['observed'], 'doc': f['doc']}, fh, indent=1, default=str)
+        text = '%s at %s expected %s observed %s' % (' -> '.join(f['labels']), f['path'], core._short(f['expected'], 140), core._short(f['observed'], 140))
+        (known_hits if kf else violations)[sig] = ((kf, rp, text) if kf else (rp, text))
+    doc = evidence.build(pid, mod.LEVEL, tier, seed, res['aggs'], time.time() - t0, len(violations), sorted({k[0]['what'] for k in known_hits.values()}),
+                         getattr(mod, 'ASSUMPTIONS', []), res.get('extra'))
+    evidence.write(doc)
+    for a in res['aggs']:
+        print('  space %-28s transitions=%-9d states=%-9d failing=%d' % (a['name'], a['evaluations'], a['n_states'], a['nfail']))
+    for kf, rp, text in known_hits.values():
+        print('KNOWN-FINDING: property=%s %s' % (pid, kf['what']))
+    for rp, text in violations.values():
+        print('  ' + text)
+        print('VIOLATION property=%s replay=%s' % (pid, rp))
+    print('%s %s tier=%s seed=%d evaluations=%d wall=%.1fs' % (pid, 'FAIL' if violations else 'ok', tier, seed, doc['coverage']['evaluations'], time.time() - t0))
+    return 1 if violations else 0
+
+
 def run_check(pid, tier, seed):
     t0 = time.time()
     mod = load(pid)
+    if hasattr(mod, 'custom_check'):
+        return run_custom(pid, mod, tier, seed)
     core_seed = seed
     spaces = mod.spaces(tier, core_seed)
     aggs = core.run_spaces(spaces)
@@ -164,6 +196,15 @@ def run_check(pid, tier, seed):
 def run_replay(pid, path):
     doc = json.load(open(path))
     mod = load(pid)
+    if doc.get('kind') == 'custom':
+        fails = mod.custom_replay(doc['doc'])
+        for f in fails[:10]:
+            print('  %s expected %s observed %s' % (f[0], core._short(f[1], 200), core._short(f[2], 200)))
+        if fails:
+            print('VIOLATION property=%s replay=%s' % (pid, path))
+            return 1
+        print('replay: oracle holds')
+        return 0
     spaces = mod.spaces(doc.get('tier', 'quick'), doc.get('seed', 0))
     sp = [s for s in spaces if s.name == doc['space']]
     if not sp:
@@ -191,6 +232,9 @@ def selftest():
         try:
             mod = load(pid)
         except ModuleNotFoundError:
+            continue
+        if hasattr(mod, 'custom_check'):
+            print('selftest: %s imports (custom engine)' % pid)
             continue
         for tier in ('quick', 'thorough'):
             sps = mod.spaces(tier, 0)
